@@ -118,9 +118,12 @@ Definition representable (v : Z) : Prop :=
 (* ---------- correspondence: the six truth values observed on the implementation, packed
    lt*1 + eq*2 + gt*4 + le*8 + ge*16 + ne*32 *)
 Definition b2z (b : bool) : Z := if b then 1 else 0.
-Definition mask (a b : num) : Z :=
+Definition mask_of (c : comparison) : Z :=
+  match c with Lt => 1 + 8 + 32 | Eq => 2 + 8 + 16 | Gt => 4 + 16 + 32 end.
+Definition mask6 (a b : num) : Z :=
   b2z (p_lt a b) + 2 * b2z (p_eq a b) + 4 * b2z (p_gt a b) + 8 * b2z (p_le a b)
   + 16 * b2z (p_ge a b) + 32 * b2z (p_ne a b).
+Definition mask (a b : num) : Z := mask_of (num_cmp a b).     (* = mask6 a b, C04/Proofs.v mask_ok *)
 Definition check_cmp (a b : num) (observed : Z) : bool := mask a b =? observed.
 
 (* bits of the double nearest to n/d (for display and for the generator's self-test) *)
@@ -128,3 +131,7 @@ Definition encode_scaled (v : Z) : Z :=      (* v >= 0 representable or inf_scal
   if v <? 2 ^ 52 then v
   else let e := Z.log2 v - 52 in (e + 1) * 2 ^ 52 + (v / 2 ^ e - 2 ^ 52).
 Definition bits_of_scaled (v : Z) : Z := if v <? 0 then 2 ^ 63 + encode_scaled (- v) else encode_scaled v.
+
+(* big integers are written by the generator as little-endian lists of 60-bit limbs (Coq parses long number
+   literals very slowly) *)
+Definition zl (ls : list Z) : Z := fold_right (fun l acc => l + 2 ^ 60 * acc) 0 ls.
